@@ -4,6 +4,8 @@ INVARIANT Inv_OnlyWithRule
 INVARIANT Inv_AllWithRule
 INVARIANT Inv_NotListedNone
 INVARIANT Inv_IamYields
+INVARIANT Inv_YieldOnlyToSameNamed
+INVARIANT Inv_GroupYield
 INVARIANT Inv_Legacy
 INVARIANT Inv_Alike
 INVARIANT Inv_NoClientNoMethods
